@@ -65,10 +65,26 @@ Definition tfval (q : query) (e : event) : N :=
 Definition cmp_holds (c : cmp) (a b : N) : bool :=
   match c with CEq => a =? b | CGe => b <=? a | CLt => a <? b end.
 
-Definition matches (q : query) (e : event) : bool :=
+(** With a WHERE clause the time filter is not among the plan's filter groups, so the time-field column of a
+    SEGMENT row is loaded only if the projection asks for it: SINCE on a payload time field that RETURN omits
+    then compares against a missing value and rejects every segment row, while memtable rows are evaluated on
+    the event itself (observed on the engine: same query, rows of the memtable returned, rows of segments not). *)
+Definition since_blind (q : query) : bool :=
+  match q_tf q with
+  | TCore => false
+  | TPayload => negb (q_tf_returned q) && (match q_where q with Some _ => true | None => false end)
+  end.
+
+Definition matches_at (disk : bool) (q : query) (e : event) : bool :=
   (match q_ctx q with None => true | Some c => e_ctx e =? c end)
   && (match q_where q with None => true | Some (c, n) => cmp_holds c (e_v e) n end)
-  && (match q_since q with None => true | Some s => s <=? tfval q e end).
+  && (match q_since q with
+      | None => true
+      | Some s => if disk && since_blind q then false else s <=? tfval q e
+      end).
+
+(** the selection predicate of the query *)
+Definition matches (q : query) (e : event) : bool := matches_at false q e.
 
 (** ** Marks *)
 
@@ -104,7 +120,7 @@ Definition seg_stale (g : option N) (s : segment) : bool :=
   match g with None => false | Some h => g_mtime s <? h - 1 end.
 Definition seg_rows (g : option N) (q : query) (s : segment) : list event :=
   if seg_stale g s then []
-  else flat_map (fun z => if zone_kept g z then filter (matches q) z else []) (g_zones s).
+  else flat_map (fun z => if zone_kept g z then filter (matches_at true q) z else []) (g_zones s).
 Definition shard_sources (g : option N) (q : query) (s : shard) : list (list event) :=
   [filter (matches q) (s_mem s); flat_map (seg_rows g q) (s_segs s)].
 (** the batches of a streaming query, in source order (index 2*shard for the memtable flow,
